@@ -27,6 +27,7 @@ func main() {
 		facts := fs.String("facts", "ok", "status of the generated facts check")
 		evidence := fs.String("evidence", "", "evidence file to write")
 		verif := fs.String("verif", "/verif", "verif directory")
+		replay := fs.String("replay", "", "replay file: re-run only its recorded cases")
 		fs.Parse(os.Args[2:])
 		if s := os.Getenv("VERIF_SEED"); s != "" {
 			if v, err := strconv.ParseUint(s, 10, 64); err == nil {
@@ -35,7 +36,7 @@ func main() {
 		}
 		self, _ := os.Executable()
 		ctx := &Ctx{Prop: *prop, Tier: *tier, Seed: *seed, Goit: *goit, Model: *model, Scratch: *scratch,
-			Workers: runtime.NumCPU(), Self: self, VerifDir: *verif}
+			Workers: runtime.NumCPU(), Self: self, VerifDir: *verif, Replay: *replay}
 		ck, ok := checks[*prop]
 		if !ok {
 			die("unknown property %s", *prop)
